@@ -155,7 +155,7 @@ public:
     void *alloc(std::size_t sz)  {
         void *p;
         reusable_storage_mtsafe *owner;
-        if (_busy.exchange(true, std::memory_order_relaxed)) {
+        if (_busy.exchange(true, std::memory_order_acquire)) {
             p = ::operator new(sz+sizeof(reusable_storage_mtsafe **));
             owner = nullptr;
         } else {
@@ -171,7 +171,7 @@ public:
         auto s = reinterpret_cast<reusable_storage_mtsafe **>(reinterpret_cast<char *>(ptr) + sz);
         auto me = *s;
         if (me) {
-            me->_busy.store(false, std::memory_order_relaxed);
+            me->_busy.store(false, std::memory_order_release);
         } else {
             ::operator delete(ptr);
         }
